@@ -391,6 +391,9 @@ func genCase(r *rand.Rand, allowHuge bool) *Case {
 				}
 			} else {
 				c.Kind = pick(r, sup)
+				if r.Intn(4) == 0 && total < 100000 {
+					c.Warm = 1 + r.Intn(2)
+				}
 				if strings.HasPrefix(c.Kind, "*") && r.Intn(3) == 0 {
 					p, _ := genBytes(r, false)
 					if len(p) > 64 {
